@@ -154,28 +154,36 @@ def stepped(items, build):
 # ---------------------------------------------------------------------------
 # tap operators (identity MuxObservable operators that record what passes)
 
-def tap(log, label=None):
-    """Records every mux event (kind, key, item) passing this point."""
+def tap(log, clock=None):
+    """Records every mux event passing this point as (kind, key, item, t); with a shared
+    `clock` ([int]) t is a global sequence number comparable across several taps."""
+    def _rec(kind, key, item):
+        if clock is None:
+            log.append((kind, key, item, len(log)))
+        else:
+            log.append((kind, key, item, clock[0]))
+            clock[0] += 1
+
     def _tap(source):
         def on_subscribe(observer, scheduler):
             def on_next(i):
                 t = type(i)
                 if t is rs.OnNextMux:
-                    log.append(('n', i.key, snapshot(i.item)))
+                    _rec('n', i.key, snapshot(i.item))
                 elif t is rs.OnCreateMux:
-                    log.append(('c', i.key, None))
+                    _rec('c', i.key, None)
                 elif t is rs.OnCompletedMux:
-                    log.append(('d', i.key, None))
+                    _rec('d', i.key, None)
                 elif t is rs.OnErrorMux:
-                    log.append(('e', i.key, i.error))
+                    _rec('e', i.key, i.error)
                 observer.on_next(i)
 
             def on_completed():
-                log.append(('D', None, None))
+                _rec('D', None, None)
                 observer.on_completed()
 
             def on_error(e):
-                log.append(('E', None, e))
+                _rec('E', None, e)
                 observer.on_error(e)
 
             return source.subscribe(on_next=on_next, on_completed=on_completed,
@@ -186,20 +194,22 @@ def tap(log, label=None):
 
 def lifetimes_of(log):
     """From a tap log: list of lifetimes in order of creation:
-    {'key':…, 'items': […], 'closed': bool, 'open_at': log position, 'close_at': …}."""
+    {'key', 'items', 'closed', 'open_at', 'close_at' (log positions), 'open_t', 'close_t', 'item_t'}."""
     live = {}
     out = []
-    for pos, (kind, key, item) in enumerate(log):
+    for pos, (kind, key, item, t) in enumerate(log):
         if kind == 'c':
-            lt = {'key': key, 'items': [], 'closed': False, 'open_at': pos, 'close_at': None, 'errors': []}
+            lt = {'key': key, 'items': [], 'closed': False, 'open_at': pos, 'close_at': None, 'errors': [],
+                  'open_t': t, 'close_t': None, 'item_t': []}
             live[key] = lt
             out.append(lt)
         elif kind == 'n':
             if key in live:
                 live[key]['items'].append(item)
+                live[key]['item_t'].append(t)
             else:
                 out.append({'key': key, 'items': [item], 'closed': False, 'orphan': True,
-                            'open_at': pos, 'close_at': None, 'errors': []})
+                            'open_at': pos, 'close_at': None, 'errors': [], 'open_t': t, 'close_t': None, 'item_t': [t]})
         elif kind == 'e':
             if key in live:
                 live[key]['errors'].append(item)
@@ -208,4 +218,5 @@ def lifetimes_of(log):
                 lt = live.pop(key)
                 lt['closed'] = True
                 lt['close_at'] = pos
+                lt['close_t'] = t
     return out
